@@ -10,6 +10,8 @@ import (
 	"strings"
 	"time"
 
+	"github.com/ogen-go/ogen/gen"
+
 	"verifharness/internal/doctree"
 	"verifharness/internal/e3"
 	"verifharness/internal/ev"
@@ -130,6 +132,25 @@ func Main(args []string) int {
 				pk.Origin = it.ID + "#" + c.name
 			}
 			if tree, err := doctree.Load(j.Spec); err == nil {
+				pk.Responses = ResponseKeys(tree)
+			}
+			info[key] = pk
+		}
+	}
+	// parameter matrix (observed admission), packed into documents of 90 operations
+	if only == "" || strings.HasPrefix(only, "matrix/") {
+		mopts := gen.Options{Generator: gen.GenerateOptions{Features: genlab.Features("paths/client", "paths/server")}}
+		_ = mopts.Generator.ConvenientErrors.Set("off")
+		for mi, md := range buildMatrix(r, mopts, 90) {
+			n++
+			key := fmt.Sprintf("p%04d", n)
+			origin := fmt.Sprintf("matrix/params-%d", mi)
+			if only != "" && !strings.HasPrefix(only, origin+"|") {
+				continue
+			}
+			jobs = append(jobs, e3.SpecJob{Key: key, Spec: md.Spec, Opts: mopts})
+			pk := servlab.C01Pkg{Key: key, Origin: origin, Values: r.N(10, 60), Config: "default", Defaults: md.Defaults, Combos: md.Combos}
+			if tree, err := doctree.Load(md.Spec); err == nil {
 				pk.Responses = ResponseKeys(tree)
 			}
 			info[key] = pk
